@@ -1,7 +1,7 @@
 CONSTANTS
  Scenarios <- RootGroup
  MaxCrash = 1
- Variant = "ownerfix"
+ Variant = "asfound"
 INIT Init
 NEXT Next
 INVARIANTS StateOk EndOk RaceEndOk FreshOk RetryOk TypeOk
